@@ -152,6 +152,16 @@ Theorem C20_int_macro_builds_the_written_number : forall w wbits signed_ static_
 Proof. exact macro_int_asis_literal. Qed.
 Print Assumptions C20_int_macro_builds_the_written_number.
 
+(** with `base N` the digits are digits of radix N even where they look like a radix prefix (seeded change C20_D) *)
+Theorem C20_base_suffix_ignores_pseudo_prefix :
+  macro_int_asis 64 64 false false [mk_tok TLit [48; 98; 49; 48; 49]; mk_tok TIdent t_base; mk_tok TLit [49; 54]] = Some 45313 /\
+  macro_int_asis 64 32 false true [mk_tok TLit [48; 111; 49; 55]; mk_tok TIdent t_base; mk_tok TLit [51; 50]] = Some 24615 /\
+  macro_int_asis 64 64 true false [mk_tok TPunct [45]; mk_tok TLit [48; 120; 49; 102]; mk_tok TIdent t_base; mk_tok TLit [51; 54]] = Some (- 42819) /\
+  macro_int_asis 64 64 false false [mk_tok TLit [48; 120; 49; 48]; mk_tok TIdent t_base; mk_tok TLit [49; 48]] = None /\
+  macro_int_asis 64 64 false false [mk_tok TLit [48; 98; 49; 48; 49]; mk_tok TIdent t_base; mk_tok TLit [49; 49]] = None.
+Proof. exact macro_int_pseudo_prefix. Qed.
+Print Assumptions C20_base_suffix_ignores_pseudo_prefix.
+
 (** ... which is what the run-time parser of the same signedness returns for the text sign + value in that radix *)
 Theorem C20_int_macro_equals_runtime_parser : forall w signed_ neg v b, parser_word w -> value_text_ok v = true ->
   (neg = true -> signed_ = true) ->
